@@ -77,6 +77,17 @@ fn run(code: u16, ct: bool, close: bool, extra: &[(&str, &str)], body_len: usize
     }
     None
 }
+fn replay_extra(key: &str) -> bool {
+    // the part of the grid added after the first version: codes, value alphabet, name alphabet
+    let mut hit = false;
+    for code in 100u16..=999 { for close in [false, true] { if let Some(m) = run(code, false, close, &[], 0, usize::MAX) { if m.starts_with(key) { hit = true; } } } }
+    let mut vals: Vec<String> = (0x20u8..0x7f).map(|c| format!("a{}b", c as char)).collect();
+    vals.push("a\tb".to_string()); vals.push("a \t b".to_string()); vals.push("x".repeat(300));
+    for v in &vals { if let Some(m) = run(200, true, false, &[("x-v", v.as_str())], 3, 7) { if m.starts_with(key) { hit = true; } } }
+    let tchars = "!#$%&'*+-.^_`|~0123456789ABCDEFGHIJKLMNOPQRSTUVWXYZabcdefghijklmnopqrstuvwxyz";
+    for c in tchars.chars() { let name = format!("x{c}y"); if let Some(m) = run(200, false, false, &[(name.as_str(), "v")], 1, usize::MAX) { if m.starts_with(key) { hit = true; } } }
+    hit
+}
 fn main() {
     std::panic::set_hook(Box::new(|_| {}));
     let args: Vec<String> = std::env::args().collect();
@@ -87,7 +98,7 @@ fn main() {
         // witnesses replay by position in the deterministic grid
         let w = args[2..].join(" ");
         let key = w.split(" expected=").next().unwrap_or("").to_string();
-        let mut hit = false;
+        let mut hit = replay_extra(&key);
         for code in [100u16, 200, 204, 404, 500, 999] { for ct in [false, true] { for close in [false, true] { for ex in &extras { for bl in [0usize, 1, 70000] { for ch in [1usize, 7, usize::MAX] {
             if bl == 70000 && ch == 1 { continue; }
             if let Some(m) = run(code, ct, close, ex, bl, ch) { if m.starts_with(&key) { hit = true; } }
@@ -101,6 +112,24 @@ fn main() {
         n += 1;
         if let Some(m) = run(code, ct, close, ex, bl, ch) { if found.len() < 6 { found.push(m) } }
     }}}}}}
+    // every status code, close marking both ways
+    for code in 100u16..=999 { for close in [false, true] {
+        n += 1;
+        if let Some(m) = run(code, false, close, &[], 0, usize::MAX) { if found.len() < 6 { found.push(m) } }
+    }}
+    // every printable ASCII character and HTAB in the interior of a value; every tchar in a name
+    let mut vals: Vec<String> = (0x20u8..0x7f).map(|c| format!("a{}b", c as char)).collect();
+    vals.push("a\tb".to_string()); vals.push("a \t b".to_string()); vals.push("x".repeat(300));
+    for v in &vals {
+        n += 1;
+        if let Some(m) = run(200, true, false, &[("x-v", v.as_str())], 3, 7) { if found.len() < 6 { found.push(m) } }
+    }
+    let tchars = "!#$%&'*+-.^_`|~0123456789ABCDEFGHIJKLMNOPQRSTUVWXYZabcdefghijklmnopqrstuvwxyz";
+    for c in tchars.chars() {
+        let name = format!("x{c}y");
+        n += 1;
+        if let Some(m) = run(200, false, false, &[(name.as_str(), "v")], 1, usize::MAX) { if found.len() < 6 { found.push(m) } }
+    }
     println!("EVALUATED {n}");
     for f in &found { println!("WITNESS {f}"); }
     std::process::exit(if found.is_empty() { 0 } else { 1 });
